@@ -92,6 +92,75 @@ func (s *recKMSStore) Delete(id string) error {
 	return nil
 }
 
+// a store whose reads fail while failReads is set (writes go through): "stored, but could not be read back"
+type flakyKMSStore struct {
+	recKMSStore
+	armed     bool // reads start failing with the next write
+	failReads bool
+}
+
+func (s *flakyKMSStore) Put(id string, v []byte) error {
+	err := s.recKMSStore.Put(id, v)
+	if s.armed {
+		s.failReads = true
+	}
+	return err
+}
+
+func (s *flakyKMSStore) Get(id string) ([]byte, error) {
+	if s.failReads {
+		return nil, errors.New("flaky store: read failed")
+	}
+	return s.recKMSStore.Get(id)
+}
+
+func kmsFlakyKMS(kind string, st *flakyKMSStore, masterKey []byte) (*localkms.LocalKMS, error) {
+	lock, err := kmsLock("raw", masterKey, "")
+	if err != nil {
+		return nil, err
+	}
+	return localkms.New("local-lock://verif", kmsProv{st, lock})
+}
+
+// kmsUnescape undoes C / protobuf text escapes (\xHH, \ooo, \n ...) so that key bytes printed through %v, %q or a
+// proto String() are found by the scan
+func kmsUnescape(s string) []byte {
+	var out []byte
+	for i := 0; i < len(s); i++ {
+		if s[i] != '\\' || i+1 >= len(s) {
+			out = append(out, s[i])
+			continue
+		}
+		i++
+		switch c := s[i]; {
+		case c == 'x' && i+2 < len(s):
+			if v, err := strconv.ParseUint(s[i+1:i+3], 16, 8); err == nil {
+				out = append(out, byte(v))
+				i += 2
+			} else {
+				out = append(out, '\\', c)
+			}
+		case c >= '0' && c <= '7':
+			j := i
+			for j < len(s) && j < i+3 && s[j] >= '0' && s[j] <= '7' {
+				j++
+			}
+			v, _ := strconv.ParseUint(s[i:j], 8, 16)
+			out = append(out, byte(v))
+			i = j - 1
+		case c == 'n':
+			out = append(out, '\n')
+		case c == 'r':
+			out = append(out, '\r')
+		case c == 't':
+			out = append(out, '\t')
+		default:
+			out = append(out, c)
+		}
+	}
+	return out
+}
+
 func kmsLock(kind string, masterKey []byte, pass string) (secretlock.Service, error) {
 	switch kind {
 	case "raw":
@@ -116,6 +185,9 @@ func kmsLock(kind string, masterKey []byte, pass string) (secretlock.Service, er
 }
 
 // kmsOpen builds (lock service, key manager) over the store; for passphrase locks `cipher` is the protected master key
+// the passphrase of the passphrase-derived master locks: longer than any internal block or buffer size one may think of
+const kmsPass = "correct horse battery staple - correct horse battery staple - correct horse battery staple"
+
 func kmsOpen(kind string, st *recKMSStore, masterKey []byte, pass, cipher string) (*localkms.LocalKMS, string, error) {
 	var lock secretlock.Service
 	var err error
@@ -397,7 +469,7 @@ func kmsRun(input string, c06 bool) string {
 		masterKey[i] ^= byte(i * 7)
 	}
 	st := &recKMSStore{data: map[string][]byte{}, freezeAt: -1}
-	k, cipher, err := kmsOpen(parts[0], st, masterKey, "correct horse", "")
+	k, cipher, err := kmsOpen(parts[0], st, masterKey, kmsPass, "")
 	if err != nil {
 		return "open-error " + err.Error()
 	}
@@ -406,6 +478,12 @@ func kmsRun(input string, c06 bool) string {
 	var importedSecrets [][]byte
 	var outs []string
 	ops := strings.Split(parts[1], ";")
+	var opErrors []string
+	noteErr := func(e error) {
+		if e != nil {
+			opErrors = append(opErrors, e.Error())
+		}
+	}
 	for oi, op := range ops {
 		f := strings.Split(op, " ")
 		if crash >= 0 && oi == len(ops)-1 {
@@ -423,6 +501,7 @@ func kmsRun(input string, c06 bool) string {
 			} else {
 				id, pub, e = k.CreateAndExportPubKeyBytes(kt)
 			}
+			noteErr(e)
 			if e == nil {
 				keys = append(keys, &kmsKey{id: id, kt: f[1], pub: pub, live: true})
 				returns = append(returns, []byte(id), pub)
@@ -451,6 +530,7 @@ func kmsRun(input string, c06 bool) string {
 				importedSecrets = append(importedSecrets, pk.D.Bytes())
 			}
 			id, _, e := k.ImportPrivateKey(priv, kmsKeyTypes[f[1]], opts...)
+			noteErr(e)
 			if e == nil {
 				nk := &kmsKey{id: id, kt: f[1], live: true}
 				if f[2] == "noid" {
@@ -478,6 +558,7 @@ func kmsRun(input string, c06 bool) string {
 			switch f[0] {
 			case "rotate":
 				nid, _, e := k.Rotate(kmsKeyTypes[strings.Split(key.kt, "/")[0]], key.id)
+				noteErr(e)
 				if e == nil {
 					keys = append(keys, &kmsKey{id: nid, kt: strings.Split(key.kt, "/")[0] + "/rotated", live: true})
 					key.live = false
@@ -490,6 +571,7 @@ func kmsRun(input string, c06 bool) string {
 				}
 			default:
 				pub, _, e := k.ExportPubKeyBytes(key.id)
+				noteErr(e)
 				if e == nil {
 					key.pub = pub
 					returns = append(returns, pub)
@@ -549,24 +631,69 @@ func kmsRun(input string, c06 bool) string {
 			hay = append(hay, []byte(cipher))
 			secrets = append(secrets, masterKey)
 		}
+		// error values are output too: run the storing operations once more over a store whose reads fail right after a
+		// write (a flaky backend), and scan the texts of all errors - as printed, and with text escapes undone
+		flaky := &flakyKMSStore{recKMSStore: recKMSStore{data: map[string][]byte{}, freezeAt: -1}}
+		if lockF, ef := kmsFlakyKMS(parts[0], flaky, masterKey); ef == nil {
+			for _, kt := range []string{"ed25519", "p256", "p384"} {
+				priv, ok := kmsImportable(kt)
+				if !ok {
+					continue
+				}
+				switch pk := priv.(type) {
+				case ed25519.PrivateKey:
+					secrets = append(secrets, append([]byte{}, pk.Seed()...))
+				case *ecdsa.PrivateKey:
+					secrets = append(secrets, pk.D.Bytes())
+				}
+				flaky.armed = true
+				_, _, e1 := lockF.ImportPrivateKey(priv, kmsKeyTypes[kt])
+				flaky.failReads = false
+				_, _, e2 := lockF.ImportPrivateKey(priv, kmsKeyTypes[kt], kmsapi.WithKeyID("named-"+kt))
+				flaky.armed, flaky.failReads = false, false
+				for _, e := range []error{e1, e2} {
+					if e != nil {
+						hay = append(hay, []byte(e.Error()), kmsUnescape(e.Error()))
+					}
+				}
+			}
+		}
+		for _, e := range opErrors {
+			hay = append(hay, []byte(e), kmsUnescape(e))
+		}
 		scan := kmsScan(secrets, hay)
 		reuse := lockReuse()
 		// a key manager opened with the wrong master key / passphrase must not yield any key
+		// ... whatever the wrong secret looks like: unrelated, or the right one with its last / first byte changed, cut
+		// short, extended, or equal to the right one on a long prefix only
 		wrong := "allfail"
-		st2 := &recKMSStore{data: st.data, freezeAt: -1}
-		otherKey := bytes.Repeat([]byte{0x11}, 32)
-		var k2 *localkms.LocalKMS
-		var e2 error
-		if parts[0] == "raw" || parts[0] == "rawbin" {
-			k2, _, e2 = kmsOpen(parts[0], st2, otherKey, "", "")
-		} else {
-			k2, _, e2 = kmsOpen(parts[0], st2, nil, "wrong passphrase", cipher)
+		flip := func(b []byte, i int) []byte {
+			c := append([]byte{}, b...)
+			c[i] ^= 0x01
+			return c
 		}
-		if e2 == nil {
-			for _, key := range keys {
-				if _, e := k2.Get(key.id); e == nil {
-					wrong = "READABLE " + key.kt
-					break
+		wrongKeys := [][]byte{bytes.Repeat([]byte{0x11}, 32), flip(masterKey, 0), flip(masterKey, len(masterKey)-1)}
+		wrongPass := []string{"wrong passphrase", kmsPass[:len(kmsPass)-1] + "X", "X" + kmsPass[1:], kmsPass[:len(kmsPass)-1], kmsPass + "x",
+			kmsPass[:64] + strings.Repeat("#", len(kmsPass)-64), kmsPass[:32]}
+		nProbe := len(wrongPass)
+		if parts[0] == "raw" || parts[0] == "rawbin" {
+			nProbe = len(wrongKeys)
+		}
+		for pi := 0; pi < nProbe && wrong == "allfail"; pi++ {
+			st2 := &recKMSStore{data: st.data, freezeAt: -1}
+			var k2 *localkms.LocalKMS
+			var e2 error
+			if parts[0] == "raw" || parts[0] == "rawbin" {
+				k2, _, e2 = kmsOpen(parts[0], st2, wrongKeys[pi], "", "")
+			} else {
+				k2, _, e2 = kmsOpen(parts[0], st2, nil, wrongPass[pi], cipher)
+			}
+			if e2 == nil {
+				for _, key := range keys {
+					if _, e := k2.Get(key.id); e == nil {
+						wrong = fmt.Sprintf("READABLE %s (wrong secret #%d)", key.kt, pi)
+						break
+					}
 				}
 			}
 		}
@@ -574,7 +701,7 @@ func kmsRun(input string, c06 bool) string {
 	}
 	// C06: reopen a fresh key manager over the surviving store and probe every key
 	st.freezeAt = -1
-	k2, _, err := kmsOpen(parts[0], st, masterKey, "correct horse", cipher)
+	k2, _, err := kmsOpen(parts[0], st, masterKey, kmsPass, cipher)
 	if err != nil {
 		return strings.Join(outs, " ") + " || reopen-error"
 	}
